@@ -49,7 +49,7 @@ pub async fn run_variant(backend: Backend, lines: &[Line], mut model: Option<&mu
     if unmodelled {
         model = None;
     }
-    let mut real = Real::setup(backend, unmodelled).await?;
+    let mut real = Real::setup(backend, lines.iter().any(|l| l.wants_small_buckets())).await?;
     let mut o = VarOut::default();
     let mut oracle = Oracle::default();
     if let Some(m) = model.as_deref_mut() {
@@ -72,7 +72,20 @@ pub async fn run_variant(backend: Backend, lines: &[Line], mut model: Option<&mu
         let fault_possible = real.ctl.fault_pending() || real.off();
         o.raw_before.push(real.ctl.log_len());
         o.off_before.push(real.off());
+        let attempts_before = real.ctl.mutation_count();
+        let ixv_before = if let Line::Compact(ix) = line { real.ix_version(*ix) } else { None };
         let out = real.exec(line).await;
+        // compaction: whether the bucket merge shrank the index (and the index flushed itself) is the
+        // index crate's packing decision — observed, and handed to the model as an input
+        let model_line = match line {
+            Line::Compact(ix) => {
+                let commits = real.ctl.mutation_count() > attempts_before;
+                let dirtied = !commits && real.ix_version(*ix) != ixv_before;
+                o.hits.push(format!("compact:{}", if commits { "flushes" } else if dirtied { "rebuilds-without-flush" } else { "noop" }));
+                format!("compact {ix} {} {}", commits as u8, dirtied as u8)
+            }
+            other => other.model_line(),
+        };
         let fault_possible = fault_possible || real.off();
         o.raw_after.push(real.ctl.log_len());
         o.hits.push(format!("op:{}", line.tag()));
@@ -83,7 +96,7 @@ pub async fn run_variant(backend: Backend, lines: &[Line], mut model: Option<&mu
         oracle.observe(line, &out, fault_possible);
         let real_log = real.take_log().await;
         if let Some(m) = model.as_deref_mut() {
-            let mo = m.ask(&line.model_line());
+            let mo = m.ask(&model_line);
             o.compared += 1;
             if mo != out {
                 o.disagreements.push((format!("answer of `{}`", line.show()), mo, out.clone()));
@@ -538,6 +551,28 @@ fn main() {
                             let ext = gen_::gen_base_ext(&mut r2, 8);
                             let be = [Backend::Mem, Backend::Meta, Backend::Enc][(i % 3) as usize];
                             w.base(be, &format!("ext{i}"), &ext, &mut r2, false, &sink);
+                        }
+                        // compaction with small buckets, compared with the model
+                        if i % 5 == 1 || (thorough && i % 2 == 1) {
+                            let mut r2 = Rng::for_case(args.seed ^ 0xC0A, i);
+                            // wall-clock stand-ins must stay ordered for the model: renumber them
+                            let mut rc = 0u64;
+                            let cmp: Vec<Line> = gen_::gen_base_ext(&mut r2, 8)
+                                .into_iter()
+                                .filter(|l| !l.unmodelled())
+                                .map(|l| match l {
+                                    Line::Reopen(_) => {
+                                        rc += 1;
+                                        Line::Reopen(rc)
+                                    }
+                                    Line::Close(_) => {
+                                        rc += 1;
+                                        Line::Close(rc)
+                                    }
+                                    other => other,
+                                })
+                                .collect();
+                            w.base(Backend::Mem, &format!("cmp{i}"), &cmp, &mut r2, false, &sink);
                         }
                         // the other two backends: implementation + oracle (the wrappers' own write
                         // protocol is C07/C08's model, not this one's)
